@@ -125,3 +125,11 @@ chk("C16", "property-based testing against construction-known factorizations, an
     "analytically (weights, chain rule, 2 f^T J).",
     "trusted: CPython 3.12, numpy (QR used to draw orthonormal factors), Hypothesis; the harness' analytic Jacobians. Singular values are "
     "kept a factor 2 away from the rcond threshold and 1.5 apart. Bounded search.", "DESIGN.md 4/C16")
+
+chk("C09", "property-based testing of generated matching problems with an independent re-evaluation of the user function and a log-row-0 restore oracle",
+    "Generated problems (linear / quadratic / trigonometric, consistent / inconsistent / rank-deficient, targets reachable / on a limit / "
+    "behind the limits / far / arbitrary, weights, tolerances, n_steps_max 1..8, Broyden variants, disabled knobs and targets, transient "
+    "action faults, restore_if_fail on / off) with prologues (step, clear_log, knobs moved then disabled, an earlier successful solve): if "
+    "solve() returns, the harness' own evaluation of the user function at the container's knobs is within every active tolerance; if it "
+    "raises with restore_if_fail, knobs and active flags equal log row 0 (bit-exact for unit weights, 4 ulp otherwise).",
+    "trusted: CPython 3.12, numpy, Hypothesis; the harness' numpy user functions. Bounded search (n <= 4, m <= 5).", "DESIGN.md 4/C09")
